@@ -36,7 +36,7 @@ SOFT = {
     'C07': dict(twins=['C07.cli', 'C07.e2e', 'C07.func'], floor=4, soft=['C07.guard', 'C07.rows', 'C07.missing'], strong=['C07.guard', 'C07.rows', 'C07.missing']),
     'C08': dict(twins=['C08.cli', 'C08.e2e', 'C08.func'], floor=3, soft=['C08.arity', 'C08.names', 'C08.guard'], strong=[]),
     'C09': dict(twins=['C09.cli', 'C09.e2e'], floor=13, soft=['C09.k'], strong=['C09.k']),
-    'C11': dict(twins=['C11.func', 'C11.cli'], floor=4, soft=['C11.column', 'C11.offsets', 'C11.combine'], strong=['C11.column']),
+    'C11': dict(twins=['C11.func', 'C11.cli'], floor=4, soft=['C11.column', 'C11.offsets', 'C11.combine', 'C11.vote'], strong=['C11.column', 'C11.vote']),
     'C12': dict(twins=['C12.cli', 'C12.func'], floor=3, soft=['C12.qualcmp', 'C12.sibling', 'C12.middle', 'C12.life'], strong=['C12.middle']),
     'C13': dict(twins=['C13.cli', 'C13.e2e', 'C13.func'], floor=3, soft=['C13.args', 'C13.nofilter', 'C13.window'], strong=['C13.window']),
     'C14': dict(twins=['C14.cli', 'C14.e2e'], floor=3, soft=['C14.const', 'C14.pair', 'C14.enum'], strong=['C14.enum', 'C14.const', 'C14.pair']),
